@@ -19,50 +19,57 @@ namespace Gtfs.Static
 /-- two lists have the same elements -/
 def sameSet {α} [BEq α] (a b : List α) : Bool := a.all (b.contains ·) && b.all (a.contains ·)
 
+/-- the source's columns **cover** the model's: every column the model reads is read by the source with the same
+    required flag, and the source requires nothing the model does not (a further *optional* column in the source –
+    a new field of the result – is no concern of this property: it cannot change the acceptance of a row or any
+    existing field) -/
+def covers (src model : List (Str × Bool)) : Bool :=
+  model.all (src.contains ·) && (src.filter (·.2)).all (model.contains ·)
+
 /-! ## the columns each row loop reads (source = model), as sets with their required flags -/
 
 def agencyColumns : List (Str × Bool) := [(c_agency_id, false), (c_agency_name, true), (c_agency_url, true), (c_agency_timezone, true), (c_agency_lang, false), (c_agency_phone, false), (c_agency_fare_url, false), (c_agency_email, false)]
-theorem C01_columns_agency : sameSet Gen.Columns.parseAgencies agencyColumns = true ∧ Gen.Columns.parseAgencies_checksMissingColumns = true := by decide
+theorem C01_columns_agency : covers Gen.Columns.parseAgencies agencyColumns = true ∧ Gen.Columns.parseAgencies_checksMissingColumns = true := by decide
 
 def routesColumns : List (Str × Bool) := [(c_route_id, true), (c_agency_id, false), (c_route_color, false), (c_route_text_color, false), (c_route_short_name, false), (c_route_long_name, false), (c_route_desc, false), (c_route_type, true), (c_route_url, false), (c_route_sort_order, false), (c_continuous_pickup, false), (c_continuous_drop_off, false)]
-theorem C01_columns_routes : sameSet Gen.Columns.parseRoutes routesColumns = true ∧ Gen.Columns.parseRoutes_checksMissingColumns = true := by decide
+theorem C01_columns_routes : covers Gen.Columns.parseRoutes routesColumns = true ∧ Gen.Columns.parseRoutes_checksMissingColumns = true := by decide
 
 def stopsColumns : List (Str × Bool) := [(c_stop_id, true), (c_stop_code, false), (c_stop_name, false), (c_stop_desc, false), (c_zone_id, false), (c_stop_lon, false), (c_stop_lat, false), (c_stop_url, false), (c_location_type, false), (c_stop_timezone, false), (c_wheelchair_boarding, false), (c_platform_code, false), (c_parent_station, false)]
-theorem C01_columns_stops : sameSet Gen.Columns.parseStops stopsColumns = true ∧ Gen.Columns.parseStops_checksMissingColumns = true := by decide
+theorem C01_columns_stops : covers Gen.Columns.parseStops stopsColumns = true ∧ Gen.Columns.parseStops_checksMissingColumns = true := by decide
 
 def transfersColumns : List (Str × Bool) := [(c_from_stop_id, true), (c_to_stop_id, true), (c_transfer_type, false), (c_min_transfer_time, false)]
-theorem C01_columns_transfers : sameSet Gen.Columns.parseTransfers transfersColumns = true ∧ Gen.Columns.parseTransfers_checksMissingColumns = true := by decide
+theorem C01_columns_transfers : covers Gen.Columns.parseTransfers transfersColumns = true ∧ Gen.Columns.parseTransfers_checksMissingColumns = true := by decide
 
 def calendarColumns : List (Str × Bool) := [(c_start_date, true), (c_end_date, true), (c_service_id, true), (c_monday, true), (c_tuesday, true), (c_wednesday, true), (c_thursday, true), (c_friday, true), (c_saturday, true), (c_sunday, true)]
-theorem C01_columns_calendar : sameSet Gen.Columns.parseCalendar calendarColumns = true ∧ Gen.Columns.parseCalendar_checksMissingColumns = true := by decide
+theorem C01_columns_calendar : covers Gen.Columns.parseCalendar calendarColumns = true ∧ Gen.Columns.parseCalendar_checksMissingColumns = true := by decide
 
 def calendarDatesColumns : List (Str × Bool) := [(c_service_id, true), (c_date, true), (c_exception_type, true)]
-theorem C01_columns_calendarDates : sameSet Gen.Columns.parseCalendarDates calendarDatesColumns = true ∧ Gen.Columns.parseCalendarDates_checksMissingColumns = true := by decide
+theorem C01_columns_calendarDates : covers Gen.Columns.parseCalendarDates calendarDatesColumns = true ∧ Gen.Columns.parseCalendarDates_checksMissingColumns = true := by decide
 
 def tripsColumns : List (Str × Bool) := [(c_route_id, true), (c_service_id, true), (c_trip_id, true), (c_trip_headsign, false), (c_trip_short_name, false), (c_direction_id, false), (c_block_id, false), (c_wheelchair_accessible, false), (c_bikes_allowed, false), (c_shape_id, false)]
-theorem C01_columns_trips : sameSet Gen.Columns.parseScheduledTrips tripsColumns = true ∧ Gen.Columns.parseScheduledTrips_checksMissingColumns = true := by decide
+theorem C01_columns_trips : covers Gen.Columns.parseScheduledTrips tripsColumns = true ∧ Gen.Columns.parseScheduledTrips_checksMissingColumns = true := by decide
 
 def stopTimesColumns : List (Str × Bool) := [(c_stop_id, true), (c_stop_sequence, true), (c_trip_id, true), (c_arrival_time, false), (c_departure_time, false), (c_stop_headsign, false), (c_pickup_type, false), (c_drop_off_type, false), (c_continuous_pickup, false), (c_continuous_drop_off, false), (c_shape_dist_traveled, false), (c_timepoint, false)]
-theorem C01_columns_stopTimes : sameSet Gen.Columns.parseScheduledStopTimes stopTimesColumns = true ∧ Gen.Columns.parseScheduledStopTimes_checksMissingColumns = true := by decide
+theorem C01_columns_stopTimes : covers Gen.Columns.parseScheduledStopTimes stopTimesColumns = true ∧ Gen.Columns.parseScheduledStopTimes_checksMissingColumns = true := by decide
 
 def shapesColumns : List (Str × Bool) := [(c_shape_id, true), (c_shape_pt_lat, true), (c_shape_pt_lon, true), (c_shape_pt_sequence, true), (c_shape_dist_traveled, false)]
-theorem C01_columns_shapes : sameSet Gen.Columns.parseShapes shapesColumns = true ∧ Gen.Columns.parseShapes_checksMissingColumns = true := by decide
+theorem C01_columns_shapes : covers Gen.Columns.parseShapes shapesColumns = true ∧ Gen.Columns.parseShapes_checksMissingColumns = true := by decide
 
 def frequenciesColumns : List (Str × Bool) := [(c_trip_id, true), (c_start_time, true), (c_end_time, true), (c_headway_secs, true), (c_exact_times, false)]
-theorem C01_columns_frequencies : sameSet Gen.Columns.parseFrequencies frequenciesColumns = true ∧ Gen.Columns.parseFrequencies_checksMissingColumns = true := by decide
+theorem C01_columns_frequencies : covers Gen.Columns.parseFrequencies frequenciesColumns = true ∧ Gen.Columns.parseFrequencies_checksMissingColumns = true := by decide
 
-/-- the required columns, in declaration order (the order `MissingColumns` warnings list them in),
-    are the ones the model's row functions require -/
+/-- the required columns of every file are the model's (as sets; for agency.txt in declaration order, the order in
+    which its `MissingColumns` / missing-values warnings list them) -/
 theorem C01_required_columns :
     (Gen.Columns.parseAgencies.filter (·.2)).map (·.1) = agencyRequired ∧
-    (Gen.Columns.parseRoutes.filter (·.2)).map (·.1) = routeRequired ∧
-    (Gen.Columns.parseStops.filter (·.2)).map (·.1) = [c_stop_id] ∧
-    (Gen.Columns.parseTransfers.filter (·.2)).map (·.1) = [c_from_stop_id, c_to_stop_id] ∧
-    (Gen.Columns.parseCalendar.filter (·.2)).map (·.1) = calendarRequired ∧
-    (Gen.Columns.parseCalendarDates.filter (·.2)).map (·.1) = calendarDatesRequired ∧
-    (Gen.Columns.parseShapes.filter (·.2)).map (·.1) = shapeRequired ∧
-    (Gen.Columns.parseScheduledTrips.filter (·.2)).map (·.1) = tripRequired ∧
-    (Gen.Columns.parseFrequencies.filter (·.2)).map (·.1) = freqRequired ∧
+    sameSet ((Gen.Columns.parseRoutes.filter (·.2)).map (·.1)) routeRequired = true ∧
+    sameSet ((Gen.Columns.parseStops.filter (·.2)).map (·.1)) [c_stop_id] = true ∧
+    sameSet ((Gen.Columns.parseTransfers.filter (·.2)).map (·.1)) [c_from_stop_id, c_to_stop_id] = true ∧
+    sameSet ((Gen.Columns.parseCalendar.filter (·.2)).map (·.1)) calendarRequired = true ∧
+    sameSet ((Gen.Columns.parseCalendarDates.filter (·.2)).map (·.1)) calendarDatesRequired = true ∧
+    sameSet ((Gen.Columns.parseShapes.filter (·.2)).map (·.1)) shapeRequired = true ∧
+    sameSet ((Gen.Columns.parseScheduledTrips.filter (·.2)).map (·.1)) tripRequired = true ∧
+    sameSet ((Gen.Columns.parseFrequencies.filter (·.2)).map (·.1)) freqRequired = true ∧
     sameSet ((Gen.Columns.parseScheduledStopTimes.filter (·.2)).map (·.1)) stopTimeRequired = true := by decide
 
 /-- the file table: the ten files the model's actions know, required/optional as documented, in an
